@@ -184,6 +184,13 @@ func (c *Ctx) structuralNondetFree(rootRes []string, exempt map[string]bool) (ch
 					if sc := x.Common().StaticCallee(); sc != nil && sc.Pkg != nil {
 						pp := sc.Pkg.Pkg.Path()
 						nm := pp + "." + sc.Name()
+						// library calls whose result depends on the clock or on an unspecified order
+						if pp == "crypto/x509" && sc.Name() == "Verify" && sc.Signature.Recv() != nil && !verifyOptsSetTime(x.Common()) {
+							findings = append(findings, structFinding{key, "x509 Verify without VerifyOptions.CurrentTime reads the wall clock, at " + c.fset.Position(x.Pos()).String()})
+						}
+						if (pp == "reflect" && (sc.Name() == "MapKeys" || sc.Name() == "MapRange")) || (pp == "sync" && sc.Name() == "Range") {
+							findings = append(findings, structFinding{key, "call of " + nm + " (unspecified iteration order) at " + c.fset.Position(x.Pos()).String()})
+						}
 						if badPkg[pp] && !badOK[nm] && !(pp == "os" && false) {
 							if pp == "time" && (sc.Name() != "Now" && sc.Name() != "Since" && sc.Name() != "Until" && sc.Name() != "After" && sc.Name() != "Sleep" && sc.Name() != "NewTimer" && sc.Name() != "Tick") {
 								continue
@@ -434,4 +441,41 @@ func (c *Ctx) mapRangeSortedByKey(pos token.Pos) (bool, string) {
 		return true, ""
 	}
 	return false, why
+}
+
+
+// verifyOptsSetTime: the VerifyOptions argument of (*x509.Certificate).Verify is a local composite whose CurrentTime
+// field is assigned in the calling function.
+func verifyOptsSetTime(com *ssa.CallCommon) bool {
+	if len(com.Args) < 2 {
+		return false
+	}
+	ld, ok := com.Args[1].(*ssa.UnOp)
+	if !ok {
+		return false
+	}
+	al, ok := ld.X.(*ssa.Alloc)
+	if !ok || al.Referrers() == nil {
+		return false
+	}
+	st, ok := al.Type().(*types.Pointer).Elem().Underlying().(*types.Struct)
+	if !ok {
+		return false
+	}
+	idx := -1
+	for i := 0; i < st.NumFields(); i++ {
+		if st.Field(i).Name() == "CurrentTime" {
+			idx = i
+		}
+	}
+	for _, r := range *al.Referrers() {
+		if fa, ok := r.(*ssa.FieldAddr); ok && fa.Field == idx && fa.Referrers() != nil {
+			for _, rr := range *fa.Referrers() {
+				if _, ok := rr.(*ssa.Store); ok {
+					return true
+				}
+			}
+		}
+	}
+	return false
 }
